@@ -123,13 +123,14 @@ def client_loop_part(chk):
   from ml_metrics._src.utils import courier_utils
   for prefetch in (1, 2):
     for bsz in (1, 2, 3):
-      for n, fail in ((3, 0), (3, 2), (3, 3), (4, 4), (1, 1), (5, 3)):
+      for n, fail, ret in ((3, 0, 'done'), (3, 2, 'done'), (3, 3, 'done'), (4, 4, 'done'), (1, 1, 'done'), (5, 3, 'done'),
+                           (2, 0, 0), (4, 0, ''), (0, 0, False), (1, 0, [])):      # a return value is a value whatever its truth
         with dist.cluster(1, prefetch=prefetch, iterate_batch_size=bsz, heartbeat_threshold=1e7) as c:
           worker = c.pool.all_workers[0]
           got, rq = [], _queue.SimpleQueue()
 
           async def consume():
-            task = courier_utils.GeneratorTask.new(lazy_fns.trace(lib.failing_range)(n, fail))
+            task = courier_utils.GeneratorTask.new(lazy_fns.trace(lib.failing_range)(n, fail, ret))
             async for x in worker.async_iterate(task, generator_result_queue=rq):
               got.append(x)
 
@@ -149,6 +150,9 @@ def client_loop_part(chk):
           chk.violation('client-loop:failure-not-delivered', f'[{cfg}] ended with {status} {val!r}, received {got}', ctx)
         elif not fail and status != 'ok':
           chk.violation('client-loop:unexpected-error', f'[{cfg}] {val!r}', ctx)
+        elif not fail and (lambda vs: len(vs) != 1 or vs[0] != ret or type(vs[0]) is not type(ret))(rets := [rq.get() for _ in range(rq.qsize())]):
+          chk.violation('client-loop:return-value' + ('' if ret else ':falsy'), f'[{cfg}] the generator returns {ret!r}; the result queue received '
+                        f'{rets!r} (elements {got})', ctx)
         elif got != want:
           chk.violation('client-loop:elements' + (':before-failure' if fail else ''), f'[{cfg}] received {got}, the generator produced {want}' + (' before failing' if fail else ''), ctx)
 
